@@ -796,6 +796,52 @@ class Session(Gen):
         return self
 
 
+def backlog_cases(rng, kind, n, prefix="b"):
+    """A queue towards the client left unread while `n` entries pile up, then everybody is served:
+    kind 'consumer' (n deliveries to an idle consumer, then a delivery and a get answer on another
+    channel, then a server cancel), 'confirm' (n acks/nacks to an unread confirm listener), 'return'."""
+    g = Gen(rng, chmax=4, bound=4, via_stream=0.0)
+    h1 = g.open_channel(1); g.bind_opened(h1, 1)
+    h2 = g.open_channel(2); g.bind_opened(h2, 2)
+    cl2 = g.consume(h2, "t2")
+    if kind == "consumer":
+        cl1 = g.consume(h1, "t1")
+        hd = g.use(header(1, 0))
+        for i in range(n):
+            d = g.use(deliver(1, "t1", i + 1, False, "", "k"))
+            g.op("frame " + hx(d.bytes)); g.op("frame " + hx(hd.bytes))
+        # nobody else is delayed
+        g.feed(g.deliver(cl2), direct=True)
+        g.op("crecv " + cl2)
+        g.op("send %s send %s" % (h2, hx(amqp.client_only_samples(2)["basic.qos"]))); g.op("ev 2")
+        g.feed([simple_ok(2, "basic.qos-ok")], direct=True); g.op("recv %s -" % h2)
+        # the idle consumer ends: exactly one terminal message after all n deliveries
+        g.feed([cancel(1, "t1", True)], direct=True)
+        for i in range(n + 2):
+            g.op("crecv " + cl1)
+    elif kind == "confirm":
+        lst = g.new_listener()
+        g.op("send %s setconf %s" % (h1, lst)); g.op("ev 1")
+        for i in range(n):
+            f = g.use(ack(1, i + 1, False) if i % 3 else nack(1, i + 1, False))
+            g.op("frame " + hx(f.bytes))
+        g.feed(g.deliver(cl2), direct=True); g.op("crecv " + cl2)
+        for i in range(n + 1):
+            g.op("lrecv " + lst)
+    else:
+        lst = g.new_listener()
+        g.op("send %s setret %s" % (h1, lst)); g.op("ev 1")
+        hd = g.use(header(1, 0))
+        for i in range(n):
+            r = g.use(ret(1, 312, "NO_ROUTE", "ex", "k%d" % (i % 7)))
+            g.op("frame " + hx(r.bytes)); g.op("frame " + hx(hd.bytes))
+        g.feed(g.deliver(cl2), direct=True); g.op("crecv " + cl2)
+        for i in range(n + 1):
+            g.op("lrecv " + lst)
+    g.finish()
+    return g.case("%s-%s-%d" % (prefix, kind, n))
+
+
 def reply_close_cases(rng, kinds=("chan", "conn"), prefix="q"):
     """Directed: a call in flight on channel 1 (a second channel stays busy); its reply and a server
     close arrive back to back - in one read, in two reads, or handed over directly - before / after
